@@ -46,6 +46,43 @@ template<class A> static void dissect_event(Guarded&ar,const Text&in,int ps,int 
   std::string jl="[]"; if(!fault&&rc==URI_SUCCESS){ jl=jq(read_list<A>(ql)); if(ep==2) A::FreeQueryListMm(ql,&mm.mm); else A::FreeQueryList(ql); }
   g.event(J().str("e","Dissect").num("w",A::W).raw("in",jtext(in)).boo("ps",ps).num("conv",conv).num("rc",rc).num("count",count).raw("list",jl).raw("mem",mm.jlog()).num("leak",(long long)mm.outstanding()).num("fault",fault).str("s",show(in)).done()); mm.release_all(); }
 
+// the allocating calls with the k-th request of the supplied manager refused (once, or from then on): whatever is REPORTED as a success must
+// be the fault-free result (C17); that a refused request ends in the out-of-memory code is C14's clause and is checked here as well
+template<class A> static void query_fault_events(const Text&in,int ps,int conv){ typedef typename A::Ch Ch; std::basic_string<Ch> s=to_str<Ch>(in);
+  long reqs=0; { RecMM mm; typename A::QL*ql=nullptr; int c=0; if(A::DissectQueryMallocExMm(&ql,&c,s.data(),s.data()+s.size(),ps,(UriBreakConversion)conv,&mm.mm)==URI_SUCCESS) A::FreeQueryListMm(ql,&mm.mm); reqs=mm.reqs; mm.release_all(); }
+  for(long k=1;k<=reqs+1;++k) for(int from=0;from<2;++from){ RecMM mm; mm.failAt=k; mm.failFrom=from; typename A::QL*ql=nullptr; int count=-7;
+    g.set_case(J().str("driver","query/dissect-fault").raw("in",jtext(in)).num("k",k).num("from",from).num("w",A::W).done());
+    int rc=A::DissectQueryMallocExMm(&ql,&count,s.data(),s.data()+s.size(),ps,(UriBreakConversion)conv,&mm.mm); bool refused=mm.refused>0; mm.failAt=0;
+    std::string jl="[]"; if(rc==URI_SUCCESS){ jl=jq(read_list<A>(ql)); A::FreeQueryListMm(ql,&mm.mm); }
+    g.event(J().str("e","DissectFault").num("w",A::W).raw("in",jtext(in)).boo("ps",ps).num("conv",conv).num("k",k).boo("from",from).num("rc",rc).boo("refused",refused).num("count",count).raw("list",jl).num("leak",(long long)mm.outstanding()).str("s",show(in)).done());
+    mm.release_all(); g.count("df"+jtext(in)+std::to_string(k*2+from),true); } }
+template<class A> static void compose_fault_events(const QList&l,int sp,int nb){ typedef typename A::Ch Ch; RealList<A> rl(l); std::string jl=jq(l);
+  long reqs=0; { RecMM mm; Ch*out=nullptr; if(A::ComposeQueryMallocExMm(&out,rl.head(),sp,nb,&mm.mm)==URI_SUCCESS) mm.mm.free(&mm.mm,out); reqs=mm.reqs; mm.release_all(); }
+  for(long k=1;k<=reqs+1;++k) for(int from=0;from<2;++from){ RecMM mm; mm.failAt=k; mm.failFrom=from; Ch*out=nullptr;
+    g.set_case(J().str("driver","query/compose-fault").raw("list",jl).num("k",k).num("from",from).num("w",A::W).done());
+    int rc=A::ComposeQueryMallocExMm(&out,rl.head(),sp,nb,&mm.mm); bool refused=mm.refused>0; mm.failAt=0; std::string jout="[]";
+    if(rc==URI_SUCCESS&&out){ size_t n=0; while(out[n]) ++n; jout=jopt_some(to_text<Ch>(out,out+n)); mm.mm.free(&mm.mm,out); }
+    g.event(J().str("e","ComposeFault").num("w",A::W).raw("list",jl).boo("sp",sp).boo("nb",nb).num("k",k).boo("from",from).num("rc",rc).boo("refused",refused).raw("out",jout).num("leak",(long long)mm.outstanding()).str("s",showq(l)).done());
+    mm.release_all(); g.count("cf"+jl+std::to_string(k*2+from),true); } }
+
+// a manager whose blocks are lazily mapped anonymous memory (address space, not RAM, until touched): lets a worst-case buffer of gigabytes exist
+struct LazyMM { UriMemoryManager mm; long live=0;
+  static void* lalloc(size_t n){ size_t tot=n+4096; void*p=mmap(nullptr,tot,PROT_READ|PROT_WRITE,MAP_PRIVATE|MAP_ANONYMOUS|MAP_NORESERVE,-1,0); if(p==MAP_FAILED){ errno=ENOMEM; return nullptr; } *(size_t*)p=tot; return (char*)p+4096; }
+  static void* lm(UriMemoryManager*m,size_t n){ void*p=lalloc(n); if(p) ++((LazyMM*)m->userData)->live; return p; }
+  static void* lc(UriMemoryManager*m,size_t a,size_t b){ size_t t; if(__builtin_mul_overflow(a,b,&t)){ errno=ENOMEM; return nullptr; } return lm(m,t); }
+  static void lf(UriMemoryManager*m,void*p){ if(!p) return; --((LazyMM*)m->userData)->live; char*b=(char*)p-4096; munmap(b,*(size_t*)b); }
+  static void* lr(UriMemoryManager*m,void*p,size_t n){ if(!p) return lm(m,n); if(!n){ lf(m,p); return nullptr; } size_t old=*(size_t*)((char*)p-4096)-4096; void*q=lm(m,n); if(!q) return nullptr; memcpy(q,p,old<n?old:n); lf(m,p); return q; }
+  static void* lra(UriMemoryManager*m,void*p,size_t a,size_t b){ size_t t; if(__builtin_mul_overflow(a,b,&t)){ errno=ENOMEM; return nullptr; } return lr(m,p,t); }
+  LazyMM(){ mm.malloc=lm; mm.calloc=lc; mm.realloc=lr; mm.reallocarray=lra; mm.free=lf; mm.userData=this; } };
+// a list whose worst-case size is beyond INT_MAX/4 characters but within INT_MAX: 90 items sharing one key of 10^6 plain characters, break
+// normalization on (540 000 089).  The limit is one of CHARACTERS for either type; the text actually written is 90 000 089 characters.
+template<class A> static void compose_huge_event(){ typedef typename A::Ch Ch; const long KL=1000000, N=90; std::basic_string<Ch> key((size_t)KL,(Ch)'a'); std::vector<typename A::QL> nodes(N);
+  for(long i=0;i<N;++i){ nodes[i].key=key.c_str(); nodes[i].value=nullptr; nodes[i].next= i+1<N? &nodes[i+1] : nullptr; }
+  g.set_case(J().str("driver","query/huge").num("w",A::W).done()); LazyMM lm; Ch*out=nullptr; int req=-7; int rcq=A::ComposeQueryCharsRequiredEx(nodes.data(),&req,URI_TRUE,URI_TRUE);
+  int rc=A::ComposeQueryMallocExMm(&out,nodes.data(),URI_TRUE,URI_TRUE,&lm.mm); long long n=0; bool ok=true;
+  if(rc==URI_SUCCESS&&out){ while(out[n]) ++n; for(long long i=0;i<n&&ok;++i){ bool sep=((i+1)%(KL+1))==0; if(out[i]!=(Ch)(sep?'&':'a')) ok=false; } lm.mm.free(&lm.mm,out); }
+  g.event(J().str("e","ComposeMallocHuge").num("w",A::W).num("items",N).num("klen",KL).boo("nb",true).num("rcreq",rcq).num("reqm",req/1000000).num("rc",rc).num("outlen",n).boo("textOK",ok).num("leak",lm.live).done()); g.count("huge",true); }
+
 VH_DRIVER(query){
   long want=atol(arg_value(argc,argv,"--n",g.thorough?"500000":"40000")); Rng R(g.seed); Guarded ar(1<<20);
   std::vector<int> alpha={'a','&','=','+',' ','%',13,10,255,'4','1'};
@@ -78,6 +115,11 @@ VH_DRIVER(query){
     for(int len=0;len<=DL;++len){ std::vector<int> ix(len,0); while(true){ Text t; for(int i=0;i<len;++i) t.insert(t.end(),toks[ix[i]].begin(),toks[ix[i]].end()); ins.push_back(t); int i=len-1; while(i>=0&&++ix[i]==(int)toks.size()){ ix[i]=0; --i; } if(i<0) break; } }
     double kd= ins.size()*2>(size_t)want/3? (double)(want/3)/(ins.size()*2):1.0; long q=0;
     for(auto&t:ins) for(int ps=0;ps<2;++ps){ ++q; if(kd<1.0 && (R.next()%1000000)>=kd*1000000) continue; int conv=(int)((q>>1)%4), ep=(int)((q>>3)%3); /* (q's parity is ps) */ AW(true,q%2,[&]{ dissect_event<ApiA>(ar,t,ps,conv,ep); },[&]{ dissect_event<ApiW>(ar,t,ps,conv,ep); }); g.count(jtext(t)+std::to_string(ps),!t.empty()); } }
+  // failing requests inside the allocating calls
+  { long q=0; for(const char*t:{"k1=v1&flag&=x%26y&a+b=","a=b","a","=","a=&=b&&c=%41+%0D%0A","k=v&k2","&&","x=%0D%0A%0d&y=1+2"}) for(int ps=0;ps<2;++ps) for(int conv:{0,3}){ ++q; AW(true,q%2,[&]{ query_fault_events<ApiA>(T(t),ps,conv); },[&]{ query_fault_events<ApiW>(T(t),ps,conv); }); }
+    std::vector<QList> fl={ {{T("k"),true,T("v")}}, {{T("key one"),true,T("v\r\n")},{T("k2"),false,{}}}, {{{},true,{}}}, {{Text(1500,'a'),true,Text(700,'b')}}, {{T("a b"),true,T("c&d")},{T("e"),true,{}},{T("f"),false,{}}} };
+    for(auto&l:fl) for(int sp=0;sp<2;++sp) for(int nb=0;nb<2;++nb){ ++q; AW(true,q%2,[&]{ compose_fault_events<ApiA>(l,sp,nb); },[&]{ compose_fault_events<ApiW>(l,sp,nb); }); } }
+  if(g.pair) AW(true,true,[&]{ compose_huge_event<ApiA>(); },[&]{ compose_huge_event<ApiW>(); }); else { compose_huge_event<ApiA>(); compose_huge_event<ApiW>(); }
   // size arithmetic at real scale: key and value of 2*10^8 characters each (measuring call only in quick; UBSan makes a signed overflow a crash)
   { size_t n=200u*1000u*1000u; for(int variant=0;variant<2;++variant){ std::string big(n, variant? 'a':'\r'); UriQueryListA item; item.key=big.c_str(); item.value=big.c_str(); item.next=nullptr; int req=-7; g.set_case(J().str("driver","query/giant").num("variant",variant).done());
       for(int nb=0;nb<2;++nb){ int rc=uriComposeQueryCharsRequiredExA(&item,&req,URI_TRUE,nb);
